@@ -292,7 +292,11 @@ def float_replay(m, ps, item):
         Ef = lambda r: 1.0 + 0.5 * r
         Af = lambda r: float(a_const)
         rng = np.random.RandomState(4)
-        RHO = (rng.rand(nr, ntheta, nz) - 0.5).astype(np.complex128)
+        # genuinely complex right-hand side; mode 0 purely real, mode 1 purely imaginary (what the FFT of cos / sin content gives)
+        RHO = (rng.rand(nr, ntheta, nz) - 0.5) + 1j * (rng.rand(nr, ntheta, nz) - 0.5)
+        RHO[:, 0, :] = RHO[:, 0, :].real
+        if ntheta > 1:
+            RHO[:, 1, :] = 1j * RHO[:, 1, :].imag
         Tq = SO.math_knots(breaks, rdeg, False)
         nb = ncells + rdeg
         from numpy.polynomial.legendre import leggauss
